@@ -23,7 +23,7 @@ Lefts == <<"", " ", "foo ", "<div>", "<a href=\"x\">", "<br/>", "</p>", "<i titl
           "<p\thidden>", "<a b=c\td e='f'>", "<br\t/>",
           "<a x=\"it's\" y>", "<i t='say \"hi\"' />",
           "text<b>", "Hello<br/>", "a1<i t=u>">>            \* a quoted value holding the other kind of quote, then more of the tag          \* tags written with tabs between their parts
-Elems == <<"a", "b1", "ul.c", "li[title=x]", "p{x>y}", "a[t=\"v w\"]", "em*3", "(a+b)", ".c", "#i.d", "x[b=c]", "h1{a b}", "td[colspan=2]*2", "a[t=\"f(a, b)\"]", "x[o=\"g('y')\"]", "p{f(a, b) c}", "p{it's %%3}", "x[t='%%']{b'c}", "p{Hello {name}!}", "x{a {b {c}} d}[t={e}]">>
+Elems == <<"a", "b1", "ul.c", "li[title=x]", "p{x>y}", "a[t=\"v w\"]", "em*3", "(a+b)", ".c", "#i.d", "x[b=c]", "h1{a b}", "td[colspan=2]*2", "a[t=\"f(a, b)\"]", "x[o=\"g('y')\"]", "p{f(a, b) c}", "p{it's %%3}", "x[t='%%']{b'c}", "p{Hello {name}!}", "x{a {b {c}} d}[t={e}]", "a[t=\"it's\"]", "i[a='5\" d']">>
 CssElems == <<"p10", "m10-20", "c#f.5", "bd1-s#f!", "lg(top,#fc0)", "w100p", "pos:a", "@kf", "w100%", "m10%-20%", "fz120%!">>
 Ops == IF Mode = "markup" THEN {">", "+", "^"} ELSE {"+"}
 (* abbreviations whose last bracket / quote is still open, with what the editor auto-inserts after the caret *)
